@@ -218,12 +218,50 @@ def src_var(s):
     return "T_%s" % s.name
 
 
+def py_lit(v):
+    import datetime
+    import decimal
+    if isinstance(v, decimal.Decimal):
+        return "D(%r)" % str(v)
+    if isinstance(v, datetime.date):
+        return "date(%d, %d, %d)" % (v.year, v.month, v.day)
+    return repr(v)
+
+
+def bind_value(v):
+    """the Python value the engine should end up storing for a literal"""
+    import datetime
+    import decimal
+    if isinstance(v, bool):
+        return int(v)
+    if isinstance(v, decimal.Decimal):
+        return float(v) if ("." in str(v) or "E" in str(v)) else int(v)
+    if isinstance(v, datetime.date):
+        return v.isoformat()
+    return v
+
+
+def make_db2(seed):
+    """tables with a key (REPLACE / conflicts are observable)"""
+    r = random.Random(seed)
+    con = sqlite3.connect(":memory:")
+    for t in TABLES:
+        con.execute("create table %s (id integer primary key, a, b, c, s)" % t)
+        rows = []
+        for i in range(r.randint(3, 8)):
+            rows.append((i + 1, r.choice([None, 0, 1, 2, 3, 3]), r.choice([None, 1, 2, -1, 5]), r.choice([0, 1, 1, 2, 7, None]),
+                         r.choice(["x", "y", "Xy", "it's", None, "", "10"])))
+        con.executemany("insert into %s values (?,?,?,?,?)" % t, rows)
+    con.commit()
+    return con
+
+
 def py_expr(e, Q):
     k = e[0]
     if k == "col":
         return "%s.%s" % (src_var(e[3]), e[2])
     if k == "lit":
-        return "VW(%r)" % (e[1],)
+        return "VW(%s)" % py_lit(e[1])
     if k == "bin":
         return "(%s %s %s)" % (py_expr(e[2], Q), e[1], py_expr(e[3], Q))
     if k == "neg":
@@ -332,6 +370,7 @@ def py_select(spec, Q, nested=False, order_seed=None):
 
 
 COMPENSATE_MUL_DIV = [False]
+BIND = [None]     # a list: literals of the reference statement are bound parameters collected here (C05)
 
 
 def has_mul_div(e):
@@ -355,6 +394,9 @@ def sql_expr(e):
         return '"%s"."%s"' % (e[1], e[2])
     if k == "lit":
         v = e[1]
+        if BIND[0] is not None:
+            BIND[0].append(bind_value(v))
+            return "?"
         return "(%s)" % v if isinstance(v, (int, float)) else "'%s'" % str(v).replace("'", "''")
     if k == "bin":
         return "(%s %s %s)" % (sql_expr(e[2]), e[1], sql_expr(e[3]))
